@@ -85,6 +85,17 @@ func (p *Path) builtin(name string, args []Value, site ssa.Instruction) Value {
 			panic(mergeAbort{"close in merge region"})
 		}
 		p.events = append(p.events, Event{Name: "close", Args: args})
+		if ch, ok := args[0].(*ChanV); ok {
+			if ch == nil {
+				p.obligation(p.tc.False, "panic", "close-nil-channel", "close of nil channel")
+				p.end("gopanic", "close of nil channel")
+			}
+			if ch.Closed {
+				p.obligation(p.tc.False, "panic", "close-closed-channel", "close of closed channel")
+				p.end("gopanic", "close of closed channel")
+			}
+			ch.Closed = true
+		}
 		return nil
 	case "ssa:wrapnilchk":
 		ptr := args[0].(*PtrV)
@@ -499,6 +510,14 @@ func (p *Path) chanRecv(ch Value, commaOk bool, t types.Type) Value {
 	if p.guard != nil {
 		panic(mergeAbort{"channel operation in merge region"})
 	}
+	if c != nil && len(c.Buf) == 0 && c.Closed {
+		// receive from a closed, drained channel: the zero value, ok == false
+		z := p.zero(t)
+		if commaOk {
+			return TupleV{z, p.tc.False}
+		}
+		return z
+	}
 	if c == nil || len(c.Buf) == 0 {
 		p.end("done", "blocking receive (no scripted value)")
 	}
@@ -543,7 +562,7 @@ func (p *Path) selectOp(fr *Frame, in *ssa.Select) Value {
 			if ch != nil && len(ch.Buf) < ch.Cap {
 				ready = append(ready, i)
 			}
-		} else if ch != nil && len(ch.Buf) > 0 {
+		} else if ch != nil && (len(ch.Buf) > 0 || ch.Closed) {
 			ready = append(ready, i)
 		}
 	}
@@ -564,6 +583,9 @@ func (p *Path) selectOp(fr *Frame, in *ssa.Select) Value {
 	if st.Dir == types.SendOnly {
 		p.chanSend(ch, p.get(fr, st.Send))
 		return mk(i, false, nil)
+	}
+	if len(ch.Buf) == 0 {
+		return mk(i, false, nil) // closed and drained: zero value, ok == false
 	}
 	v := ch.Buf[0]
 	ch.Buf = ch.Buf[1:]
